@@ -1,6 +1,7 @@
 import Model.Node
 import Model.Store
 import Gen.FlushEffects
+import Gen.BufferAddEffects
 
 /-!
 GenTie.FlushRule — `BlockStore.flush_blocks_to_disk`, translated from the current source as an effect tree, is the model's flush:
@@ -34,7 +35,67 @@ theorem model_flush_is_translated_effects (C : Crypto) (n : Node) :
 
 /-- on the relational store model: one `Store.write` of the whole buffer (a sequence of flushes is `Store.writeAll`) -/
 theorem flush_writes_the_whole_buffer (buffer_nonempty : Bool) :
-    (Gen.flush_effects buffer_nonempty).1 = (if buffer_nonempty then ["write_whole_buffer", "clear_buffer"] else []) := by
+    (Gen.flush_effects buffer_nonempty).1 =
+      (if buffer_nonempty then ["acquire", "write_whole_buffer", "clear_buffer", "release"] else ["acquire", "release"]) := by
   cases buffer_nonempty <;> rfl
+
+/-! ### two writers of one store (miner thread and networking thread)
+
+`add_block_to_buffer` is translated too. Both functions touch the buffer only between acquiring and releasing the store's lock;
+so in every schedule of a flush and a concurrent hand-over that respects the lock, the block handed over is neither lost nor
+does it make an earlier block get lost: it is written by this flush or still buffered for the next. -/
+
+theorem buffer_add_under_lock : Gen.buffer_add_effects = (["acquire", "append", "release"], false) := by
+  first | rfl | decide
+
+/-- all ways of merging the steps of thread 0 and thread 1 into one schedule -/
+def mergesF : Nat → List String → List String → List (List (Nat × String))
+  | 0, _, _ => []
+  | _ + 1, [], b => [b.map fun y => (1, y)]
+  | _ + 1, x :: a, [] => [(x :: a).map fun y => (0, y)]
+  | k + 1, x :: a, y :: b =>
+      (mergesF k a (y :: b)).map (fun m => (0, x) :: m) ++ (mergesF k (x :: a) b).map (fun m => (1, y) :: m)
+
+def merges (a b : List String) : List (List (Nat × String)) := mergesF (a.length + b.length + 1) a b
+
+/-- a schedule respects the lock: it is acquired only when free and released only by its owner -/
+def lockOk : Option Nat → List (Nat × String) → Bool
+  | _, [] => true
+  | owner, (t, tok) :: rest =>
+    if tok = "acquire" then owner.isNone && lockOk (some t) rest
+    else if tok = "release" then (owner == some t) && lockOk none rest
+    else lockOk owner rest
+
+/-- the store under a schedule: rows, buffer; `x` is the block handed over -/
+def runSched {β : Type} (x : β) : List β × List β → List (Nat × String) → List β × List β
+  | s, [] => s
+  | (d, b), (_, tok) :: rest =>
+    if tok = "write_whole_buffer" then runSched x (d ++ b, b) rest
+    else if tok = "clear_buffer" then runSched x (d, []) rest
+    else if tok = "append" then runSched x (d, b ++ [x]) rest
+    else runSched x (d, b) rest
+
+theorem lock_respecting_schedules (ne : Bool) :
+    (merges (Gen.flush_effects ne).1 Gen.buffer_add_effects.1).filter (lockOk none) =
+      [ ((Gen.flush_effects ne).1.map fun y => (0, y)) ++ (Gen.buffer_add_effects.1.map fun y => (1, y)),
+        (Gen.buffer_add_effects.1.map fun y => (1, y)) ++ ((Gen.flush_effects ne).1.map fun y => (0, y)) ] := by
+  cases ne <;> decide
+
+/-- no schedule that respects the lock loses a block -/
+theorem concurrent_handover_not_lost {β : Type} (ne : Bool) (x : β) (d b : List β) (m : List (Nat × String))
+    (hm : m ∈ merges (Gen.flush_effects ne).1 Gen.buffer_add_effects.1) (hl : lockOk none m = true) :
+    let s := runSched x (d, b) m
+    (x ∈ s.1 ∨ x ∈ s.2) ∧ (∀ y ∈ b, y ∈ s.1 ∨ y ∈ s.2) ∧ (∀ y ∈ d, y ∈ s.1) := by
+  have hmem : m ∈ (merges (Gen.flush_effects ne).1 Gen.buffer_add_effects.1).filter (lockOk none) := by
+    simp [List.mem_filter, hm, hl]
+  rw [lock_respecting_schedules] at hmem
+  rw [flush_writes_the_whole_buffer, buffer_add_under_lock] at hmem
+  cases ne <;> simp at hmem <;> rcases hmem with h | h <;> subst h <;> simp [runSched] <;> grind
+
+/-- without the lock around the hand-over there is a schedule that loses the block (so the lock tokens carry weight) -/
+example :
+    ∃ m ∈ merges (Gen.flush_effects true).1 ["append"], lockOk none m = true ∧
+      (2 : Nat) ∉ (runSched 2 ([], [1]) m).1 ∧ (2 : Nat) ∉ (runSched 2 ([], [1]) m).2 :=
+  ⟨[(0, "acquire"), (0, "write_whole_buffer"), (1, "append"), (0, "clear_buffer"), (0, "release")], by decide, by decide, by decide, by decide⟩
 
 end GenTie
